@@ -784,7 +784,11 @@ async fn probe_storage(input: &Value) {
 				}
 				json!({"ok": true, "type": t, "path": p, "len": len, "fill": fill, "sha": sha256_hex(&data), "seen": seen, "at_return": at_return})
 			}
-			Err(e) => json!({"ok": false, "type": t, "error": e.message}),
+			Err(e) => {
+				// a write that is reported as failed: what is on disk is reported all the same
+				let p = crate::storage::verif_path(&fm, &t).unwrap_or_default();
+				json!({"ok": false, "type": t, "error": e.message, "len": len, "fill": fill, "path": p, "seen": observe_file(&p)})
+			}
 		});
 	}
 	out(json!({"ok": true, "results": res}));
